@@ -347,6 +347,7 @@ fn base_config(subject: SubjectKind, workload: Workload) -> Config {
         wakers_first: false,
         shape: 0,
         inexact_iter: false,
+        src_hints: false,
         workload: format!("{:?}", workload),
     }
 }
@@ -363,7 +364,7 @@ pub fn applies(workload: Workload, s: SubjectKind) -> bool {
         Workload::Cap => matches!(s, FUB | FU | FOB | FO | MB | MU | BU | BO | TBU | TBO | FEC),
         Workload::Stall => matches!(s, BO | TBO | FOB | FO),
         Workload::AfterReady => matches!(s, JA | TJA),
-        Workload::Conveyor => matches!(s, FUB | FU | FOB | FO),
+        Workload::Conveyor => matches!(s, FUB | FU | FOB | FO | MB | MU),
         Workload::Flood => true,
     }
 }
@@ -381,6 +382,10 @@ pub fn generate(workload: Workload, subject: SubjectKind, seed: u64) -> (Config,
     // type shape of the children (drop glue or not), where the harness has the variants
     if matches!(class, Class::Collection | Class::Join) && r.chance(3, 10) {
         cfg.shape = r.range(1, 3) as u8;
+    }
+    if class == Class::Join && r.chance(1, 8) {
+        // zero-sized outputs with a destructor (with or without drop glue on the future)
+        cfg.shape = 4 | (r.below(2) as u8);
     }
     // children that panic in poll: only joins are specified for what happens afterwards (C07)
     if class == Class::Join && matches!(workload, Workload::AfterReady | Workload::Generic) && r.chance(1, 4) {
@@ -410,6 +415,7 @@ pub fn generate(workload: Workload, subject: SubjectKind, seed: u64) -> (Config,
     }
     cfg.wakers_first = r.chance(1, 2);
     cfg.inexact_iter = r.chance(1, 3);
+    cfg.src_hints = r.chance(1, 2);
     cfg.cap = small_cap(r);
     if cfg.cap == 0 && !matches!(workload, Workload::Cap) {
         cfg.cap = 1 + r.below(4) as usize;
@@ -461,9 +467,11 @@ pub fn generate(workload: Workload, subject: SubjectKind, seed: u64) -> (Config,
             cfg.upstream = gen_upstream(r, &m, subject.is_try(), len);
             cfg.up_released = if r.chance(1, 2) { len } else { r.below(len as u64 + 1) as usize };
             cfg.up_lo_slack = if r.chance(1, 2) { 0 } else { r.below(5) as usize };
-            cfg.up_hi_slack = match r.below(3) {
-                0 => Some(0),
-                1 => Some(r.below(5) as usize),
+            cfg.up_hi_slack = match r.below(8) {
+                0 | 1 | 2 => Some(0),
+                3 | 4 => Some(r.below(5) as usize),
+                // loose but honest upper bounds next to usize::MAX
+                5 => Some(usize::MAX - r.below(70) as usize),
                 _ => None,
             };
             cfg.cap = cfg.cap.min(64);
@@ -884,7 +892,14 @@ pub fn generate(workload: Workload, subject: SubjectKind, seed: u64) -> (Config,
         Workload::Conveyor => {
             // resident population of pending futures, part of it drained, then one-in/one-out
             let k = r.pick(&[2usize, 3, 5, 6, 33, 40, 65, 97, 100]);
-            let drain = if r.chance(1, 2) { r.below(k as u64) as usize } else { 0 };
+            // how many of the oldest residents leave before the conveyor starts: none, exactly the
+            // first group, or any number
+            let drain = match r.below(4) {
+                0 => 0,
+                1 | 2 => 32.min(k - 1),
+                _ => r.below(k as u64) as usize,
+            };
+            let residents_leave = r.chance(1, 2);
             cfg.initial.clear();
             cfg.start_pos = None;
             if subject.bounded() {
@@ -897,13 +912,26 @@ pub fn generate(workload: Workload, subject: SubjectKind, seed: u64) -> (Config,
                 cfg.ctor = Ctor::New;
             }
             let pending = Beh { store: r.below(2) as u8, ..Beh::default() };
-            for _ in 0..k {
-                trace.push(Op::Push { beh: pending, how: PushHow::Back });
+            // finishing a child: a future becomes ready, a source is closed
+            let finish = |sel: u16, delay: bool| if src { Op::Close { sel, delay } } else { Op::Ready { sel, delay } };
+            if subject == SubjectKind::MB {
+                cfg.ctor = Ctor::Collect;
+                cfg.initial = vec![pending; k + 2];
+                cfg.cap = k + 2;
+                // two of the initial ones make room for the travellers
+                trace.push(Op::Poll { fresh: false });
+                trace.push(finish(0x8000, false));
+                trace.push(finish(0x8000, false));
+                trace.push(Op::PollMany { max: 4, fresh: false });
+            } else {
+                for _ in 0..k {
+                    trace.push(Op::Push { beh: pending, how: PushHow::Back });
+                }
             }
             trace.push(Op::Poll { fresh: false });
             for _ in 0..drain {
                 // always the oldest resident
-                trace.push(Op::Ready { sel: 0, delay: false });
+                trace.push(finish(0, false));
             }
             if drain > 0 {
                 trace.push(Op::PollMany { max: (drain + 2) as u16, fresh: false });
@@ -912,7 +940,7 @@ pub fn generate(workload: Workload, subject: SubjectKind, seed: u64) -> (Config,
             if r.chance(1, 3) {
                 // work-queue flavour: travellers are ready when pushed, one poll per push; some
                 // residents are woken at the start and must get their turn while this goes on
-                let ready = Beh { ready: true, ..Beh::default() };
+                let ready = Beh { ready: true, closed: true, items: if src { 1 } else { 0 }, ..Beh::default() };
                 for i in 0..r.range(1, 3) {
                     trace.push(Op::Wake { sel: i as u16 * 7, how: WakeHow::ByRef, times: 1 });
                 }
@@ -927,13 +955,30 @@ pub fn generate(workload: Workload, subject: SubjectKind, seed: u64) -> (Config,
                 trace.push(Op::Quiesce);
                 return (cfg, trace);
             }
-            // the first traveller
-            trace.push(Op::Push { beh: pending, how: PushHow::Back });
+            let mut resident = resident;
+            if resident > 0 && r.chance(1, 2) {
+                // the newest resident leaves as well (the largest group then holds travellers only)
+                trace.push(finish(resident - 1, false));
+                trace.push(Op::PollMany { max: 3, fresh: false });
+                resident -= 1;
+            }
+            if resident > 0 && r.chance(1, 2) {
+                // the newest resident is the first traveller (it sits in the newest group)
+                resident -= 1;
+            } else {
+                // the first traveller
+                trace.push(Op::Push { beh: pending, how: PushHow::Back });
+            }
             let cycles = r.range(20, 300);
             for _ in 0..cycles {
+                if residents_leave && resident > 0 && r.chance(1, 12) {
+                    // a resident leaves at some point
+                    trace.push(finish(r.below(resident as u64) as u16, false));
+                    resident -= 1;
+                }
                 trace.push(Op::Push { beh: pending, how: PushHow::Back });
                 // non-ready live futures in id order: residents, previous traveller, new traveller
-                trace.push(Op::Ready { sel: resident, delay: r.chance(1, 8) });
+                trace.push(finish(resident, r.chance(1, 8)));
                 if r.chance(1, 8) {
                     trace.push(Op::Deliver { sel: 0 });
                 }
